@@ -1029,7 +1029,9 @@ def slice_with_int_dask_array_on_axis(x, idx, axis):
     # e.g. chunks=(..., (5, 3, 4), ...) -> offset=[0, 5, 8]
     offset = np.roll(np.cumsum(asarray_safe(x.chunks[axis], like=x._meta)), 1)
     offset[0] = 0
-    offset = from_array(offset, chunks=1)
+    # (explicit name: the default one is the token of the data, which is also the
+    # name of a user-made ``from_array(<same values>, chunks=1)`` indexer)
+    offset = from_array(offset, chunks=1, name="getitem-offset-" + tokenize(offset))
     # Tamper with the declared chunks of offset to make blockwise align it with
     # x[axis]
     offset = Array(
